@@ -78,7 +78,7 @@ class MayRaise:
         self.cg = cg or CallGraph(repo, self.classes)
         self.hier = ExcHierarchy(repo, self.classes)
         self.depth = depth
-        self._memo: dict[ast.AST, dict[str, str]] = {}
+        self._memo: dict[ast.AST, dict[tuple[str, str], str]] = {}
         self._active: set[ast.AST] = set()
 
     # -- classification of raised values ------------------------------------------------
@@ -154,7 +154,7 @@ class MayRaise:
                         if a.arg == e.id and a.annotation is not None:
                             names = [n for n in unparse(a.annotation).replace("|", " ").split() if n[:1].isupper()]
                             if names:
-                                return names[0]
+                                return "Exception" if names[0] in ("Any", "BaseException") else names[0]
         return "Exception"
 
     # -- handler subtraction --------------------------------------------------------------
@@ -184,27 +184,35 @@ class MayRaise:
 
     # -- summaries ---------------------------------------------------------------------------
     def summary(self, fn: ast.AST, depth: int | None = None) -> dict[str, str]:
-        """class -> one witness chain text."""
+        """class -> one witness chain text (see sites() for every raise site)."""
+        out: dict[str, str] = {}
+        for (cls, _site), chain in self.sites(fn, depth).items():
+            out.setdefault(cls, chain)
+        return out
+
+    def sites(self, fn: ast.AST, depth: int | None = None) -> dict[tuple[str, str], str]:
+        """(class, raise site 'file:line') -> witness chain, for every explicit raise that can leave fn."""
         depth = self.depth if depth is None else depth
         if fn in self._memo:
             return self._memo[fn]
         if fn in self._active or depth < 0:
             return {}
         self._active.add(fn)
-        out: dict[str, str] = {}
+        out: dict[tuple[str, str], str] = {}
         name = getattr(fn, "name", "<lambda>")
         for n in walk_body(fn):
             if isinstance(n, ast.Raise):
                 cls = self.raise_class(n, fn)
                 if self.escapes(n, cls, fn):
-                    out.setdefault(cls, f"{name}:{n.lineno} raise {unparse(n.exc)[:40] if n.exc else ''}")
+                    site = f"{module_of(n).rel}:{n.lineno}"
+                    out.setdefault((cls, site), f"{name}:{n.lineno} raise {unparse(n.exc)[:40] if n.exc else ''}")
         for call, target, awaited in self.call_sites(fn):
             if isinstance(target, ast.AsyncFunctionDef) and not awaited:
                 continue
-            sub = self.summary(target, depth - 1)
-            for cls, chain in sub.items():
+            sub = self.sites(target, depth - 1)
+            for (cls, site), chain in sub.items():
                 if self.escapes(call, cls, fn):
-                    out.setdefault(cls, f"{name}:{call.lineno} -> {chain}")
+                    out.setdefault((cls, site), f"{name}:{call.lineno} -> {chain}")
         self._active.discard(fn)
         self._memo[fn] = out
         return out
@@ -224,6 +232,15 @@ class MayRaise:
                 # nested function called directly
                 if isinstance(c.func, ast.Name) and c.func.id in nested:
                     out.append((c, nested[c.func.id], awaited))
+                # bound method passed as a callback: self.m handed to a helper that calls it
+                cn = class_of(fn) if isinstance(fn, FuncDef) else None
+                ci = self.classes.by_node.get(cn) if cn is not None else None
+                if ci is not None:
+                    for a in list(c.args) + [k.value for k in c.keywords]:
+                        if isinstance(a, ast.Attribute) and isinstance(a.value, ast.Name) and a.value.id == "self":
+                            m = self.classes.find_method(ci, a.attr)
+                            if m is not None:
+                                out.append((c, m[1], awaited))
                 # nested function passed as a callback
                 for a in list(c.args) + [k.value for k in c.keywords]:
                     if isinstance(a, ast.Name) and a.id in nested and not (isinstance(c.func, ast.Name) and c.func.id in nested):
